@@ -257,6 +257,13 @@ func runDataChurn(t tfail, rec *ev.Recorder, p dataPlan) (r *simRing, res *dataR
 	// let the clients finish their streams (they are short), then quiesce
 	wg.Wait()
 	close(stop)
+	if n := r.net.Timeouts.Load(); n > 0 {
+		// a caller gave up on a call after the 10 s transport timer: a lost response (of a
+		// hand-over, a lock grant, ...) is a fault, which is C07's subject
+		rec.Add("rpc_timeouts", n)
+		rec.Inconclusive("rpc-timeout-fired-during-churn")
+		return r, res, false, cleanup
+	}
 	if _, c := r.settle(60, false, nil, false); c.Problem != "" {
 		rec.Inconclusive("ring-not-converged-after-churn")
 		return r, res, false, cleanup
